@@ -9,3 +9,5 @@ import Corro.Props.C04
 #print axioms Corro.Needs.dedup_preserves_union
 #print axioms Corro.Needs.dedup_within_server
 #print axioms Corro.Needs.dedup_no_duplicates
+#print axioms Corro.Needs.code_consts_admissible
+#print axioms Corro.Needs.code_session_sound
